@@ -32,6 +32,7 @@ import (
 	"path/filepath"
 	"strings"
 	"sync"
+	"time"
 
 	"github.com/jimstudt/http-authentication/basic"
 	"github.com/tmpim/casket/caskethttp/httpserver"
@@ -138,8 +139,16 @@ type Rule struct {
 // PasswordMatcher determines whether a password matches a rule.
 type PasswordMatcher func(pw string) bool
 
+// htpasswdFile is a parsed htpasswd file together with the
+// modification time and the size the file had when it was read.
+type htpasswdFile struct {
+	modTime  time.Time
+	size     int64
+	matchers map[string]PasswordMatcher
+}
+
 var (
-	htpasswords   map[string]map[string]PasswordMatcher
+	htpasswords   map[string]*htpasswdFile
 	htpasswordsMu sync.Mutex
 )
 
@@ -149,21 +158,30 @@ func GetHtpasswdMatcher(filename, username, siteRoot string) (PasswordMatcher, e
 	htpasswordsMu.Lock()
 	defer htpasswordsMu.Unlock()
 	if htpasswords == nil {
-		htpasswords = make(map[string]map[string]PasswordMatcher)
+		htpasswords = make(map[string]*htpasswdFile)
 	}
-	pm := htpasswords[filename]
-	if pm == nil {
-		fh, err := os.Open(filename)
-		if err != nil {
-			return nil, fmt.Errorf("open %q: %v", filename, err)
-		}
-		defer fh.Close()
-		pm = make(map[string]PasswordMatcher)
+	// the parsed file is reused only while the file itself is unchanged:
+	// a file that was edited, replaced or removed since it was read must
+	// not be answered from memory
+	fh, err := os.Open(filename)
+	if err != nil {
+		return nil, fmt.Errorf("open %q: %v", filename, err)
+	}
+	defer fh.Close()
+	info, err := fh.Stat()
+	if err != nil {
+		return nil, fmt.Errorf("stat %q: %v", filename, err)
+	}
+	cached := htpasswords[filename]
+	if cached == nil || !cached.modTime.Equal(info.ModTime()) || cached.size != info.Size() {
+		pm := make(map[string]PasswordMatcher)
 		if err = parseHtpasswd(pm, fh); err != nil {
 			return nil, fmt.Errorf("parsing htpasswd %q: %v", fh.Name(), err)
 		}
-		htpasswords[filename] = pm
+		cached = &htpasswdFile{modTime: info.ModTime(), size: info.Size(), matchers: pm}
+		htpasswords[filename] = cached
 	}
+	pm := cached.matchers
 	if pm[username] == nil {
 		return nil, fmt.Errorf("username %q not found in %q", username, filename)
 	}
